@@ -162,7 +162,9 @@ def render_module(m, name=None, extends=None):
     if name:
         out.append('grammar ' + name + (' extends ' + extends if extends else ''))
         out.append('')
-    if m.get('single_expr') and len(m['items']) == 1 and m['items'][0].get('name') == 'start':
+    if (m.get('single_expr') and len(m['items']) == 1 and m['items'][0].get('name') == 'start'
+            and m['items'][0]['expr'][0] not in ('py', 'hook')):
+        # (a description that consists of one bare inline-Python expression is a Python statement, not a start rule)
         # a grammar whose body is a single expression: an implicit start rule
         out.append(render_expr(m['items'][0]['expr']))
         return '\n'.join(out) + '\n'
@@ -760,7 +762,7 @@ def gen_child(rng, parent_gen, hook_p=0.4, ignore=None, allow_super=True, force=
     g.lit_calls = plc + collect_lit_calls(items)
     spec = {'named': True, 'extends': True, 'items': items}
     if (len(items) == 1 and items[0]['k'] == 'rule' and items[0]['name'] == 'start' and not items[0].get('ignore')
-            and items[0]['expr'][0] != 'optable' and rng.random() < 0.7):
+            and items[0]['expr'][0] not in ('optable', 'py', 'hook') and rng.random() < 0.7):
         spec['single_expr'] = True
         items[0].pop('override', None)
     return spec, g
